@@ -95,11 +95,17 @@ func Main(args []string) {
 		for i := 0; i < o.N; i++ {
 			c := &Case{Seed: r.Int63(), Procs: 1, Stream: "acyclic"}
 			cr := rand.New(rand.NewSource(c.Seed))
-			if o.Extra["cyclic"] != "" && ((o.Tier == "thorough" && i%20 == 19) || i%70 == 39) {
+			if o.Extra["cyclic"] != "" && ((o.Tier == "thorough" && i%20 == 19) || i%70 == 39 || i%70 == 59) {
 				c.Stream = "cyclic"
-				if cr.Intn(3) == 0 {
+				switch {
+				case i%70 == 39:
+					// the quick tier's four shards (consecutive seeds) cover every directed shape
+					c.Prog = DirectedCyclicShape(cr, int(o.Seed%NCyclicShapes))
+				case i%70 == 59:
+					c.Prog = DirectedCyclicShape(cr, int((o.Seed+4)%NCyclicShapes))
+				case cr.Intn(3) == 0:
 					c.Prog = Gen(cr, GenOpts{MaxTasks: 4, Cyclic: true, NoGuards: true, MaxActs: 30})
-				} else {
+				default:
 					c.Prog = DirectedCyclic(cr)
 				}
 				c.Prog.maxSteps = 8*c.Prog.Cfg.MaxCall + 2000
@@ -174,7 +180,7 @@ func Main(args []string) {
 			out = c.pre
 		} else if c.Stream == "cyclic" {
 			// judged from outside, on the real binary in a child process
-			out, err = RunCyclicCLI(c.Prog, 40*time.Second)
+			out, err = RunCyclicCLI(c.Prog, 600*time.Second)
 		} else {
 			pf := c.Prefix
 			if c.Stream == "systematic" && pf == nil {
@@ -200,6 +206,10 @@ func Main(args []string) {
 			if ob.Arr {
 				obs.Count("ev:" + ob.Ev.Kind)
 			}
+		}
+		if out.Inconclusive != "" {
+			obs.ImplFails = append(obs.ImplFails, common.ImplFail{Case: i, Kind: "inconclusive", Msg: out.Inconclusive})
+			continue
 		}
 		if out.Deadlock {
 			if c.Stream == "cyclic" {
@@ -269,6 +279,26 @@ func Main(args []string) {
 		obs.CaseInputs = append(obs.CaseInputs, map[string]any{"stream": "fanout", "calls": task.MaximumTaskCall})
 		obs.Count("stream:fanout")
 	}
+	for _, fam := range []struct {
+		key, kind string
+		list      func() []Scenario
+	}{{"guards", "guard-not-enforced", GuardScenarios}, {"whenkeys", "when-changed-wrong-count", WhenKeyScenarios}} {
+		if o.Extra[fam.key] == "" || o.Replay != "" {
+			continue
+		}
+		for _, sc := range fam.list() {
+			obs.Cases++
+			idx := len(obs.CaseInputs)
+			obs.CaseInputs = append(obs.CaseInputs, map[string]any{"stream": fam.key, "scenario": sc})
+			obs.Count("stream:" + fam.key)
+			diff, err := RunScenario(sc)
+			if err != nil {
+				obs.ImplFails = append(obs.ImplFails, common.ImplFail{Case: idx, Kind: "harness", Msg: err.Error()})
+			} else if diff != "" {
+				obs.ImplFails = append(obs.ImplFails, common.ImplFail{Case: idx, Kind: fam.kind, Msg: sc.Name + ": " + diff})
+			}
+		}
+	}
 	if o.Extra["prompts"] != "" && o.Replay == "" {
 		// a task with a LIST of prompts: every prompt must be confirmed before any command runs
 		// (the machine has one prompt guard per task; the list is judged here on the real Executor)
@@ -298,11 +328,12 @@ func Main(args []string) {
 	}
 	obs.Cases += len(cases)
 	fmt.Fprintf(&sb, "Definition cases : list ecase := %s.\n", cg.List(items))
-	names := []string{"C01", "calls", "waits", "C02", "C03", "C03s", "C06", "C07", "C13", "C13s", "C14", "eager"}
+	names := []string{"C01", "calls", "waits", "C02", "C03", "C03s", "C06", "C07", "C13", "C13s", "C14", "C14x", "C01d", "eager"}
 	for _, n := range names {
 		fmt.Fprintf(&sb, "Definition R_%s := Eval vm_compute in failures (ecase_mon_%s) cases.\nPrint R_%s.\n", n, n, n)
 	}
 	sb.WriteString("Definition R_agree := Eval vm_compute in failures ecase_agree cases.\nPrint R_agree.\n")
+	sb.WriteString("Definition A_inconclusive := Eval vm_compute in length (filter ecase_agree_inconclusive cases).\nPrint A_inconclusive.\n")
 	sb.WriteString("Definition A_codes := Eval vm_compute in map (fun c => agree_code (ec_prog c) (ec_cfg c) (ec_obs c) (ec_final c)) (filter (fun c => negb (ecase_agree c)) cases).\nPrint A_codes.\n")
 	common.WriteFile(o.Out, "cases.v", sb.String())
 	m := map[string][]int{"R_agree": idx}
